@@ -13,9 +13,9 @@ CHECK = {
     "required_categories": ["types_2f_cart+hom", "types_2d_cart+hom", "types_3f_cart+hom", "types_3d_cart+hom",
                             "normals_random", "normals_room", "normals_noisy_room", "motion_pure_translation",
                             "motion_small_rotation", "motion_noisy", "corr_subset", "corr_permuted",
-                            "normal_w_m1", "normal_w_0", "normal_w_p1", "accepted"],
+                            "second_problem_mirror_last_axis", "second_problem_new_targets_same_geometry", "normal_w_m1", "normal_w_0", "normal_w_p1", "accepted"],
     "required_oracles": ["structure.identity_plus_skew", "normal_equations", "normal_equations.precond",
-                         "recovers_pure_translation", "recovers_rotation_O(theta^2)", "variants_agree"],
+                         "recovers_pure_translation", "second_related_problem.normal_equations", "recovers_rotation_O(theta^2)", "variants_agree"],
     "rule": "case = (dim 2/3, float/double, n=6..500 correspondences, unit normals {random, three-wall room, noisy room}, "
             "cloud radius 0.1..100, offset, motion {pure translation, small rotation <=0.1 rad, both, noisy}, translation up to "
             "the diameter, correspondences {identity, permuted, subset with distractors}, preconditioning scale 1e-3..1e3, "
